@@ -145,7 +145,7 @@ theorem yok_not : YOK (tNot N recT) (wNot recW) := by
     obtain ⟨G', rfl⟩ : ∃ G', G = G' + 2 := ⟨G - 2, by omega⟩
     have hx := HC x G' hw (by omega)
     have he : eExpr (G' + 2) (.neg x) = "not" :: eOperand (G' + 1) x 4 := by rw [eExpr]
-    rw [he, eOperand_cmp recT recW Hrec x G' 4 hw, hx]
+    rw [he, eOperand_cmp recT recW Hrec x G' _ hw, hx]
     simp
   · rename_i hne
     have hw' : wCmp recW e = true := by
